@@ -70,7 +70,8 @@ def run(tier):
     for ty in TYPES:
         c08.check_type(chk, F, ty, thorough=False)
     interface_deps(chk, F)
-    dual_lifting(chk, F, bodies)
+    # (thorough: the asymptotic arm as well, on the positive side -- about a minute; the negative side takes minutes per type)
+    dual_lifting(chk, F, bodies, samples=LIFT_SAMPLES + ([("far+", Fr(6))] if tier == "thorough" else []))
     chk.floor("dual-mode liftings", chk.analysed.get("dual-mode liftings", 0), 300)
     chk.floor("bessel bodies", chk.analysed.get("bessel bodies", 0), 3)
     return chk.finish()
